@@ -19,17 +19,18 @@ import (
 type C16Outer struct {
 	// nested members are declared before, between and after the scalar fields: the rule set that
 	// governs this object is the same for every one of its fields, whatever was visited in between
-	In    C16Inner            `valid:"exist" alt:"exist"`
-	Name  string              `valid:"to=1~3|tag_outer_name" alt:"to=2~5|alt_outer_name"`
-	InP   *C16Inner           `valid:"exist" alt:"exist"`
-	Age   int                 `valid:"le=5|tag_outer_age" alt:"ge=3|alt_outer_age"`
-	Code  string              `valid:"int|tag_outer_code" alt:"to=2~2|alt_outer_code"`
-	Ins   []C16Inner          `valid:"exist" alt:"exist"`
-	Self  *C16Outer           `valid:"exist" alt:"exist"`
-	Other C16Other            `valid:"exist" alt:"exist"`
-	Oths  []*C16Other         `valid:"exist" alt:"exist"`
-	Bares []C16Bare           `valid:"exist" alt:"exist"`
-	BareM map[string]*C16Bare `valid:"exist" alt:"exist"`
+	In    C16Inner             `valid:"exist" alt:"exist"`
+	Name  string               `valid:"to=1~3|tag_outer_name" alt:"to=2~5|alt_outer_name"`
+	InP   *C16Inner            `valid:"exist" alt:"exist"`
+	Age   int                  `valid:"le=5|tag_outer_age" alt:"ge=3|alt_outer_age"`
+	Code  string               `valid:"int|tag_outer_code" alt:"to=2~2|alt_outer_code"`
+	Ins   []C16Inner           `valid:"exist" alt:"exist"`
+	Self  *C16Outer            `valid:"exist" alt:"exist"`
+	Other C16Other             `valid:"exist" alt:"exist"`
+	Oths  []*C16Other          `valid:"exist" alt:"exist"`
+	Bares []C16Bare            `valid:"exist" alt:"exist"`
+	BareM map[string]*C16Bare  `valid:"exist" alt:"exist"`
+	ReqM  map[string]*C16Inner `valid:"required|tag_outer_reqm" alt:"exist"` // a map member under required: non-empty, its values are visited
 }
 
 // C16Bare has no tag rules at all: only a rule set registered for the type can judge it.
@@ -123,6 +124,10 @@ func c16Outer(rng *rand.Rand, depth int) *C16Outer {
 	}
 	if rng.Intn(2) == 0 {
 		o.BareM = map[string]*C16Bare{"k": {Name: c16Str(rng), Age: rng.Intn(9)}}
+	}
+	if rng.Intn(3) != 0 {
+		in := c16Inner(rng)
+		o.ReqM = map[string]*C16Inner{"m": &in}
 	}
 	return o
 }
